@@ -1,6 +1,7 @@
 import FimVerif.Drivers.Proto
 import FimVerif.Model.Remove
 import FimVerif.Model.RemoveNames
+import FimVerif.Model.RemovePlan
 import FimVerif.Proofs.Lemmas.C08Ports
 import FimVerif.Proofs.Lemmas.C08Shared
 import FimVerif.Proofs.Lemmas.C08Prune
@@ -11,6 +12,7 @@ Driver for C08.  Request: `[op, nodes, edges, args, h1, h2, lists]` with
 `nodes = [[id, cls, kind], …]` (cls 0..4 = NetworkNode, Component, NetworkService, ConnectionPoint, Link),
 `edges = [[a, b, rel], …]` (rel 0 = has, 1 = connects), `args` a list of ids, `h1`/`h2` the cached interface
 lists of the handles involved as `[id, name code]` pairs, `lists` four id lists (prune only).
+The id-level calls run the *plan-interpreted* model (`Model/RemovePlan.lean` over `Generated/RemovalPlan.lean`).
 The field `hyp` is the value of the separation hypothesis of the exactness theorem for that operation (null if none).
 Reply: `["ok", {"deleted": sorted ids, "h1": sorted, "h2": sorted, "f1": sorted fresh, "f2": sorted fresh}]` or `["err", kind]`.
 -/
@@ -89,40 +91,40 @@ def handle (j : Json) : Json :=
     let h2 := ifhOf jh2
     let lists := match jl with | .arr xs => xs.toList.map natsOf | _ => []
     match op, args with
-    | "remove_node", [n] => reply g (plain (removeNodeApi g n)) none none (some (SepNodeApi g n && InvCP g && InvPeer g)) none
+    | "remove_node", [n] => reply g (plain (removeNodeApiP g n)) none none (some (SepNodeApi g n && InvCP g && InvPeer g)) none
         (some (WF g && g.cls? n == some .node && g.kind? n != some kFacility))
-    | "remove_facility", [n] => reply g (plain (removeFacilityApi g n)) none none (some (SepNodeApi g n && InvCP g && InvPeer g)) none
+    | "remove_facility", [n] => reply g (plain (removeFacilityApiP g n)) none none (some (SepNodeApi g n && InvCP g && InvPeer g)) none
         (some (WF g && g.cls? n == some .node && g.kind? n == some kFacility))
-    | "remove_switch", [n] => reply g (plain (removeSwitchApi g n)) none none (some (SepNodeApi g n && InvCP g && InvPeer g)) none
+    | "remove_switch", [n] => reply g (plain (removeSwitchApiP g n)) none none (some (SepNodeApi g n && InvCP g && InvPeer g)) none
         (some (WF g && g.cls? n == some .node && g.kind? n == some kSwitch))
-    | "remove_component", [c] => reply g (plain (removeComponentApi g c)) none none (some (SepCompApi g c && InvCP g && InvPeer g)) none
+    | "remove_component", [c] => reply g (plain (removeComponentApiP g c)) none none (some (SepCompApi g c && InvCP g && InvPeer g)) none
         (some (WF g && g.cls? c == some .comp))
-    | "remove_ns", [s] => reply g (plain (removeNsApi g s)) none none (some (SepNsApi g s && InvCP g && InvPeer g)) none
+    | "remove_ns", [s] => reply g (plain (removeNsApiP g s)) none none (some (SepNsApi g s && InvCP g && InvPeer g)) none
         (some (WF g && g.cls? s == some .ns))
-    | "g_remove_ns", [s] => reply g (plain (removeNs g s)) none none (some (SepNs g [] s && InvCP g))
+    | "g_remove_ns", [s] => reply g (plain (removeNsP g s)) none none (some (SepNs g [] s && InvCP g))
         (some (SepFamSeq g [s] (g.nbrs s .connects .cp) && sameSet (seqDelA g [s] (g.nbrs s .connects .cp)) ((g.nodes.filter (fun n => !((removeNs g s).toOption.map (fun g2 => g2.has n.id)).getD true)).map (·.id))))
-    | "remove_link", [l] => reply g (plain (removeLinkApi g l)) none none (some (SepSeq g [l] (spEnds g l) && InvPeer g)) none
+    | "remove_link", [l] => reply g (plain (removeLinkApiP g l)) none none (some (SepSeq g [l] (spEnds g l) && InvPeer g)) none
         (some (WF g && g.cls? l == some .link))
-    | "g_remove_link", [l] => reply g (plain (removeLinkG g l)) none none
+    | "g_remove_link", [l] => reply g (plain (removeLinkGP g l)) none none
     | "disconnect", [s, i] => reply g ((disconnect g h1 i).map (fun r => (r.1, r.2, []))) (some s) none none none
         (some (WF g && g.cls? i == some .cp && g.cls? s == some .ns && sameSet (hIds h1) (freshIfs g s)))
     | "unpeer", [a, b] => reply g (unpeer g h1 h2) (some a) (some b) none none
         (some (WF g && g.cls? a == some .ns && g.cls? b == some .ns && a != b && sameSet (hIds h1) (freshIfs g a) &&
                sameSet (hIds h2) (freshIfs g b)))
-    | "remove_child", [p, c] => reply g ((removeChild g h1 p c).map (fun r => (r.1, r.2, []))) (some p) none
+    | "remove_child", [p, c] => reply g ((removeChildP g h1 p c).map (fun r => (r.1, r.2, []))) (some p) none
         (some (InvPeer g && isSub g c && g.kind? c != some kDedicatedPort && SepDiscSeq g [] (deepIfs g [c]) && Sep g ((deepIfs g [c]).flatMap (discDel g)) c false))
         none (some (WF g && g.kind? p == some kDedicatedPort && g.cls? p == some .cp && !isSub g p && (g.nbrs p .connects .cp).contains c &&
                     sameSet (hIds h1) (freshIfs g p)))
     | "prune", [] =>
       match lists with
-      | [ns, cs, ss, is] => reply g (plain (prune g ns cs ss is)) none none (some (HypPrune g ns cs ss is && InvCP g && InvPeer g)) none
+      | [ns, cs, ss, is] => reply g (plain (pruneP g ns cs ss is)) none none (some (HypPrune g ns cs ss is && InvCP g && InvPeer g)) none
           (some (WF g && decide ns.Nodup && ns.all (fun n => g.cls? n == some .node && g.kind? n != some kFacility) &&
                  cs.all (fun c => g.cls? c == some .comp) && ss.all (fun s => g.cls? s == some .ns) &&
                  is.all (fun i => g.cls? i == some .cp && !isSub g i)))
       | _ => err "bad-args"
-    | "g_remove_cp", [x, dp] => reply g (plain (removeCp g x (dp != 0))) none none
-    | "g_remove_comp", [x] => reply g (plain (removeComp g x)) none none (some (SepComp g [] x && InvCP g))
-    | "g_remove_node", [x] => reply g (plain (removeNodeG g x)) none none (some (SepNode g [] x && InvCP g))
+    | "g_remove_cp", [x, dp] => reply g (plain (removeCpP g x (some (dp != 0)))) none none
+    | "g_remove_comp", [x] => reply g (plain (removeCompP g x)) none none (some (SepComp g [] x && InvCP g))
+    | "g_remove_node", [x] => reply g (plain (removeNodeGP g x)) none none (some (SepNode g [] x && InvCP g))
     | "n_remove_node", [nm] => reply g (plain (removeNodeByName g (parseDir jn) nm)) none none none none (some (NamesOK g (parseDir jn) && WF g))
     | "n_remove_facility", [nm] => reply g (plain (removeFacilityByName g (parseDir jn) nm)) none none none none (some (NamesOK g (parseDir jn) && WF g))
     | "n_remove_switch", [nm] => reply g (plain (removeSwitchByName g (parseDir jn) nm)) none none none none (some (NamesOK g (parseDir jn) && WF g))
@@ -132,6 +134,10 @@ def handle (j : Json) : Json :=
     | "n_node_remove_ns", [n, nm] => reply g (plain (nodeRemoveNs g (parseDir jn) n nm)) none none none none (some (NamesOK g (parseDir jn) && WF g))
     | "n_remove_child", [p, nm] => reply g ((removeChildByName g (parseDir jn) h1 p nm).map (fun r => (r.1, r.2, []))) (some p) none none none
         (some (NamesOK g (parseDir jn) && WF g))
+    | "remove_interface", [s, i] => reply g ((removeInterfaceP g h1 i).map (fun r => (r.1, r.2, []))) (some s) none none none
+        (some (WF g && g.cls? s == some .ns && (g.nbrs s .connects .cp).contains i && sameSet (hIds h1) (freshIfs g s)))
+    | "n_remove_interface", [s, nm] => reply g ((removeInterfaceByName g (parseDir jn) h1 s nm).map (fun r => (r.1, r.2, []))) (some s) none
+        none none (some (NamesOK g (parseDir jn) && WF g))
     | "n_prune", [] =>
       let d := parseDir jn
       let m := pruneCollect g d
